@@ -8,7 +8,6 @@ From V Require Import Base.Int Base.IntLemmas Base.IO Base.Utf8 Base.Lift Gen.Da
 From V Require Model.Parsed Model.Date Model.Time Proofs.C14 Proofs.Date Proofs.C08 Proofs.C04.
 Import ListNotations.
 Open Scope Z_scope.
-Set Default Timeout 120.
 Ltac Zify.zify_post_hook ::= Z.to_euclidean_division_equations.
 
 Import Model.Parsed.
